@@ -206,8 +206,39 @@ def enc_sequence(E, f):
     for b, t in calls:
         ty = t["arg_tys"][0] if t.get("arg_tys") else "?"
         src = backward_fields(E, fa, t["args"][0])
-        seq.append({"wire": norm_wire(ty), "raw": ty, "fields": sorted(src), "at": fa.loc(b), "b": b})
+        seq.append({"wire": norm_wire(ty), "raw": ty, "fields": sorted(src), "at": fa.loc(b), "b": b,
+                    "partial": _sub_range(fa, t["args"][0])})
     return seq, chain, fa
+
+
+def _sub_range(fa, op):
+    """Does the encoded value pass through an index with a proper range (`&self.table[..n]`),
+    i.e. is only part of a field written? Returns a description or None."""
+    pl = op_place(op)
+    for _ in range(16):
+        if pl is None:
+            return None
+        d = fa.single_def(pl["l"])
+        if d is None:
+            return None
+        if d[2] == "call":
+            t = d[3]
+            nm = (callee_of(t) or {}).get("name")
+            if nm in ("index", "index_mut", "get", "get_unchecked") and len(t["args"]) == 2:
+                o = fa.origin(t["args"][1])
+                if o[0] == "rv" and o[1]["k"] == "agg" and "ops::Range" in str(o[1].get("adt", "")) \
+                        and not str(o[1].get("adt", "")).endswith("RangeFull"):
+                    return str(o[1]["adt"]).rsplit("::", 1)[-1]
+            if nm in ("split_at", "split_first", "split_last", "take", "skip", "truncate", "first", "last") \
+                    and t["args"]:
+                return nm
+            if not t["args"]:
+                return None
+            pl = op_place(t["args"][0])
+            continue
+        rv = d[3]
+        pl = op_place(rv["op"]) if rv["k"] in ("use", "cast") else rv.get("place") if rv["k"] in ("ref", "rawptr") else None
+    return None
 
 
 def dec_sequence(E, f, self_adt):
@@ -345,6 +376,12 @@ def codec_rule(ctx, prop):
                        "writes/reads them, so the rest of the image is decoded out of phase"
                        % (adt.split("::")[-1], side, "reading" if side == "decoder" else "writing",
                           ",".join(map(str, skipped))))
+            for k, e in enumerate(es):
+                if e.get("partial"):
+                    ctx.ob("CODEC", "%s|%s|whole-field|%d" % (cfg, adt, k), False, e["at"],
+                           "%s value #%d: the encoder writes only part of field(s) %s (through %s): the "
+                           "reloaded value is shorter than the one in memory, and what the missing part "
+                           "meant is up to the reader's fallback" % (adt.split("::")[-1], k, e["fields"], e["partial"]))
             ok = len(es) == len(ds)
             ctx.ob("CODEC", "%s|%s|length" % (cfg, adt), ok, locs,
                    "%s: encoder writes %d values, decoder reads %d" % (adt.split("::")[-1],
